@@ -191,6 +191,16 @@ impl<'a, 'tcx> Cx<'a, 'tcx> {
 		}
 	}
 
+	/// `x.into()` / `x.try_into()`: the `From` / `TryFrom` impl that core's blanket impl forwards to
+	fn forwarded(&self, did: DefId, hid: hir::HirId) -> Option<String> {
+		let args = self.tr.node_args(hid);
+		if self.tcx.generics_of(did).count() != args.len() {
+			return None;
+		}
+		let env = ty::TypingEnv::post_analysis(self.tcx, self.owner.to_def_id());
+		blanket_forward(self.tcx, env, did, args)
+	}
+
 	fn adt_of(&self, ty: Ty<'tcx>) -> Option<String> {
 		let mut t = ty;
 		loop {
@@ -484,6 +494,9 @@ impl<'a, 'tcx> Cx<'a, 'tcx> {
 								if let Some(i) = self.instance(did, f0.hir_id) {
 									v.push(("inst", s(i)));
 								}
+								if let Some(fw) = self.forwarded(did, f0.hir_id) {
+									v.push(("fwd", s(fw)));
+								}
 							}
 						},
 						Res::SelfCtor(impl_did) => {
@@ -505,6 +518,9 @@ impl<'a, 'tcx> Cx<'a, 'tcx> {
 					v.push(("callee", s(dps(tcx, did))));
 					if let Some(i) = self.instance(did, e.hir_id) {
 						v.push(("inst", s(i)));
+					}
+					if let Some(fw) = self.forwarded(did, e.hir_id) {
+						v.push(("fwd", s(fw)));
 					}
 				}
 				v.push(("recv", self.expr(recv)));
